@@ -205,8 +205,15 @@ def run_case(case, wd, sessions=None):
 
     ftypes = sessions.get("fail_types")
 
+    frule = sessions.get("fail_rule")       # {"<handler>|<key repr>": number of attempts that fail}
+    attempts = {}
+
     def failfn(n, call, cl):
         o = outs[n] if (n < len(outs) and world["faults_on"]) else "ok"
+        if frule is not None:
+            tag = f"{call['h']}|{call['key']!r}"
+            attempts[tag] = attempts.get(tag, 0) + 1
+            o = "fail" if (world["faults_on"] and attempts[tag] <= frule.get(tag, 0)) else "ok"
         if ftypes is not None and o != "ok":
             lt = "_".join(call["h"].split("_")[1:-1])
             if lt not in ftypes:
